@@ -24,7 +24,10 @@ sequences. `file_reparse_partial`: when nothing is inserted the written text par
 same file. `file_reparse_uniform_newlines` / `reparse_with_final_newline` (round 3): when the
 writer adds exactly the missing final newline (LF or CRLF) to a file whose events end in a value,
 the written text parses back to the same headers and entries — every sub-parser is stable under an
-appended newline (`Lemmas/C26Append.lean`). The general re-parse statement is `file_reparse_full`
+appended newline (`Lemmas/C26Append.lean`). `file_reparse_key_on_header_line`,
+`…_and_final_newline`, `file_reparse_keys_on_header_lines` (round 4): the newlines written after
+section headers (`[a] k = v`, `[a][b]`), any number of them, with or without the final one
+(`Lemmas/C26Insert.lean`, `Lemmas/C26Repl.lean`). The general re-parse statement is `file_reparse_full`
 (not proved beyond that class; it is what the harness oracle evaluates).
 -/
 namespace GixModel.Props.C26
@@ -270,6 +273,113 @@ example : ∃ f hd tl, fileFromBytes [91, 97, 93, 32, 107, 32, 61, 32, 118] = so
     ∧ (∃ e, f.events.getLast? = some e ∧ isValueEnd e = true)
     ∧ f.write = [91, 97, 93, 10, 32, 107, 32, 61, 32, 118, 10] := by
   refine ⟨_, _, _, rfl, rfl, by decide +kernel, by decide +kernel, ⟨_, rfl, rfl⟩, by decide +kernel⟩
+
+/-- … and for ANY NUMBER of such headers at once, with or without the missing final newline: if the
+writer's output `f.aug` is the file's events with newline events inserted right after some of the
+section headers (`InsAfterHeaders`: each time what follows the header does not itself start with a
+newline) — starting either from the events themselves or from the events plus the final newline
+`t2` (under the end-of-file predicates of `file_reparse_uniform_newlines`) — then the written text
+parses back to the same headers and entries. This covers every file in which all inserted newlines
+stand after section headers or at the end; the one insertion kind left is the newline before a
+value-less key in the middle of a line (`a b`). -/
+theorem file_reparse_keys_on_header_lines (bs : Bytes) (f : File) (h : fileFromBytes bs = some f)
+    (hb : bomLen bs = 0) (hc : ∀ revs, parseRaw bs = some revs → ∀ e ∈ revs, e.canon = true)
+    (hins : InsAfterHeaders render f.events f.aug ∨
+      ∃ t2, (t2 = [10] ∨ t2 = [13, 10]) ∧ InsAfterHeaders render (f.events ++ [.newline t2]) f.aug ∧
+        (∃ e ∈ f.events, isHeaderEv e = true) ∧
+        ∃ e, f.events.getLast? = some e ∧ (isValueEnd e = true ∨ evIsWs e = true ∨ isHeaderEv e = true ∨
+          (isComment e = true ∧ t2 = [10]))) :
+    ∃ g, fileFromBytes f.write = some g ∧ g.entries = f.entries ∧ g.headers = f.headers := by
+  have h0 := h
+  unfold fileFromBytes parseEvents at h
+  simp only [Option.map_eq_some_iff] at h
+  obtain ⟨evs, ⟨revs, hr, rfl⟩, rfl⟩ := h
+  have hcan := hc revs hr
+  have hx : bs = renderRaw revs := by
+    have := parseRaw_ok hr
+    rw [hb] at this
+    simpa using this.symm
+  rw [fileOfEvents_events] at hins
+  have hF : fileOfEvents (revs.map Event.toReal) = fileOfEvents (revs.map Event.toReal) := rfl
+  rcases hins with hins | ⟨t2, ht2, hins, hhd, e, hle, hv⟩
+  · obtain ⟨R', hR', hR'can, hR'ins, he, hh⟩ := fileFromBytes_ins_many hr hx hcan hins
+    have hparse := parseRaw_ins_many hr hx hR'ins
+    have hw : (fileOfEvents (revs.map Event.toReal)).write = renderRaw R' := by
+      rw [File.write_eq, ← hR', render_toReal_of_canon R' hR'can]
+    refine ⟨fileOfEvents (fileOfEvents (revs.map Event.toReal)).aug, ?_, ?_, ?_⟩
+    · unfold fileFromBytes parseEvents
+      rw [hw, hparse, ← hR']; rfl
+    · rw [he]
+    · rw [hh]
+  · -- first the final newline, then the insertions
+    have hnb := noBomHead_of_parse hr hb
+    have hl' : ∀ G : Event → Bool, (∀ x : Event, G x.toReal = G x) → (G e = true ∨ isHeaderEv e = true) →
+        LastOkG G revs := by
+      intro G hGr hg
+      rw [List.getLast?_map] at hle
+      cases hg0 : revs.getLast? with
+      | none => rw [hg0] at hle; simp at hle
+      | some e0 =>
+        rw [hg0] at hle
+        simp only [Option.map_some, Option.some.injEq] at hle
+        subst hle
+        exact ⟨e0, hg0, by rw [← hGr, ← isHeaderEv_toReal]; exact hg⟩
+    have hhd' : ∃ e ∈ revs, isHeaderEv e = true := by
+      obtain ⟨e1, hm, hv1⟩ := hhd
+      simp only [List.mem_map] at hm
+      obtain ⟨e0, h0m, rfl⟩ := hm
+      exact ⟨e0, h0m, by rw [← isHeaderEv_toReal]; exact hv1⟩
+    have happ : parseRaw (bs ++ t2) = some (revs ++ [Event.newline t2]) := by
+      by_cases hnl : t2 = [10]
+      · subst hnl
+        refine parseRaw_appH (Or.inl rfl) eofOk_lf hr hnb hhd' (hl' isGoodEndLf isGoodEndLf_toReal ?_)
+        rcases hv with hv | hv | hv | hv
+        · exact Or.inl (by simp [isGoodEndLf, isGoodEnd, hv])
+        · exact Or.inl (by simp [isGoodEndLf, isGoodEnd, hv])
+        · exact Or.inr hv
+        · exact Or.inl (by simp [isGoodEndLf, hv.1])
+      · refine parseRaw_appH ht2 (eofOk_goodEnd ht2) hr hnb hhd' (hl' isGoodEnd isGoodEnd_toReal ?_)
+        rcases hv with hv | hv | hv | hv
+        · exact Or.inl (by simp [isGoodEnd, hv])
+        · exact Or.inl (by simp [isGoodEnd, hv])
+        · exact Or.inr hv
+        · exact absurd hv.2 hnl
+    have hx2 : bs ++ t2 = renderRaw (revs ++ [Event.newline t2]) := by
+      rw [hx]; simp [renderRaw, List.flatMap_append, Event.writeRaw, Event.writeWith]
+    have hcan2 : ∀ e ∈ revs ++ [Event.newline t2], e.canon = true := by
+      intro e he
+      simp only [List.mem_append, List.mem_singleton] at he
+      rcases he with he | rfl
+      · exact hcan e he
+      · rfl
+    have hins2 : InsAfterHeaders render ((revs ++ [Event.newline t2]).map Event.toReal) (fileOfEvents (revs.map Event.toReal)).aug := by
+      simpa [Event.toReal] using hins
+    obtain ⟨R', hR', hR'can, hR'ins, he, hh⟩ := fileFromBytes_ins_many happ hx2 hcan2 hins2
+    have hparse := parseRaw_ins_many happ hx2 hR'ins
+    have hw : (fileOfEvents (revs.map Event.toReal)).write = renderRaw R' := by
+      rw [File.write_eq, ← hR', render_toReal_of_canon R' hR'can]
+    have hsn := fileOfEvents_snoc_nl t2 (revs.map Event.toReal)
+    refine ⟨fileOfEvents (fileOfEvents (revs.map Event.toReal)).aug, ?_, ?_, ?_⟩
+    · unfold fileFromBytes parseEvents
+      rw [hw, hparse, ← hR']; rfl
+    · rw [he]; simpa [Event.toReal] using hsn.1
+    · rw [hh]; simpa [Event.toReal] using hsn.2
+
+-- non-vacuity: `[a] k = v\n[b] j\n[c]` — two headers carry keys, and the final newline is missing
+example : ∃ f, fileFromBytes [91, 97, 93, 32, 107, 32, 61, 32, 118, 10, 91, 98, 93, 32, 106, 10, 91, 99, 93] = some f
+    ∧ f.write = [91, 97, 93, 10, 32, 107, 32, 61, 32, 118, 10, 91, 98, 93, 10, 32, 106, 10, 91, 99, 93, 10]
+    ∧ InsAfterHeaders render (f.events ++ [.newline [10]]) f.aug := by
+  refine ⟨_, rfl, by decide +kernel, ?_⟩
+  exact .step
+    (pre := [.header ⟨[97], none, none⟩, .newline [10], .ws [32], .name [107], .ws [32], .sep, .ws [32], .value [118],
+      .newline [10]])
+    (post := [.ws [32], .name [106], .value [], .newline [10], .header ⟨[99], none, none⟩, .newline [10]])
+    (hr := ⟨[98], none, none⟩) (t := [10])
+    (.step (pre := []) (hr := ⟨[97], none, none⟩) (t := [10])
+      (post := [.ws [32], .name [107], .ws [32], .sep, .ws [32], .value [118], .newline [10], .header ⟨[98], none, none⟩,
+        .ws [32], .name [106], .value [], .newline [10], .header ⟨[99], none, none⟩, .newline [10]])
+      (.refl _) (Or.inl rfl) (by decide +kernel))
+    (Or.inl rfl) (by decide +kernel)
 
 /-- The appended-newline theorem on its own: for EVERY text the parser accepts (no BOM head, not
 ending in CR, events ending in a value) the text with `\n` or `\r\n` appended is accepted too, and
